@@ -229,7 +229,10 @@ def k2(ctx):
 CTX_SINK = {"sorted": {"sorted"}, "member": {"member"}, "eq": {"member"}, "size": {"member"}, "construct": {"none"},
             "state:module": {"constant"}, "state:class": {"constant"},
             # caches, mutations of module-level containers and `global` statements have no admissible row
-            "state:cache": set(), "state:mutate": set(), "state:global": set()}
+            "state:cache": set(), "state:mutate": set(), "state:global": set(),
+            # file-system access: inputs are read, the target is written, its existence is tested once; a row that
+            # READS the target ("read-target") is not admissible
+            "fs": {"read-input", "write-target", "target-exists"}}
 
 
 def k1_scan(ctx, repo):
@@ -241,6 +244,8 @@ def k1_scan(ctx, repo):
     if len(table) != len(rows):
         run.broken("K1 site table", "duplicate rows in Model/Nondet.v site_table")
     sites = c10_scan.scan_repo(repo)
+    deriver, derived = c10_scan.scan_repo_full(repo)
+    via = {tuple(k): tuple(v) for k, v in model.call("C10", [Sym("downstream")])}
     counts = c10_scan.key_counts(sites)
     run.extra["scan_sites"] = len(sites)
     run.extra["scan_distinct_keys"] = len(counts)
@@ -258,11 +263,56 @@ def k1_scan(ctx, repo):
         allowed = CTX_SINK.get(key[2])
         if allowed is not None and sink not in allowed:
             run.broken("K1 site table", f"row {key} has sink {sink} but the scan sees context {key[2]}")
+        # the sink DERIVED by the scan's data-flow must be the row's; where the data-flow gives up, the row must
+        # name a downstream expression and the scan must find it
+        dsink, why = derived.get(key, (None, ""))
+        if dsink is not None:
+            run.dist("derived_sink", dsink)
+            if dsink == "unknown":
+                d = via.get(key)
+                if d is None or not c10_scan.find_expression(deriver, d[0], d[1], d[2]):
+                    run.violation(
+                        f"K1 derived sink: ariadne_codegen/{key[0]}:{lines[0]} {key[1]}: {key[2]} {key[3]} — the scan cannot "
+                        f"derive what this iteration order reaches ({why}) and " + (
+                            f"the downstream expression {d[2]!r} is no longer in {d[0]}::{d[1]}" if d else
+                            "the model names no downstream expression for it"),
+                        {"stage": "K1 derived sink", "site": list(key), "lines": lines, "why": why, "downstream": list(d) if d else None},
+                        found_input=False)
+                else:
+                    run.dist("derived_sink", "unknown-but-downstream-found")
+            elif dsink != sink:
+                run.violation(
+                    f"K1 derived sink: ariadne_codegen/{key[0]}:{lines[0]} {key[1]}: {key[2]} {key[3]} — the table says {sink}, the scan derives {dsink} ({why})",
+                    {"stage": "K1 derived sink", "site": list(key), "table": sink, "derived": dsink, "why": why}, found_input=False)
     for s in new:
         run.violation(
             f"K1 new unordered-collection site not in the model's site table: {s['file']}:{s['lines'][0]} "
             f"{s['function']}: {s['context']} {s['expression']}", {"stage": "K1 static scan", "new_site": s},
             found_input=False)
+    # model DATA derived from the source on every run (fail closed when the derivation no longer applies)
+    src = c10_scan.source_constants(repo)
+    run.extra["derived_from_source"] = src
+    exts = src.get("graphql_extensions")
+    if not exts:
+        run.broken("K2 source-derived data", "walk_graphql_files no longer has an `extensions = (...)` tuple to read")
+    else:
+        probes = sorted(set(exts) | {".graphql", ".graphqls", ".gql", ".txt", ".GQL", ".graphqlx", ".json"})
+        res = model.batch("C10", [[Sym("suffixok"), ["d", "f" + e]] for e in probes])
+        for e, m in zip(probes, res):
+            run.count()
+            if (m == "t") != (e in exts):
+                run.violation(f"K2 source-derived data: schema.py accepts the extensions {exts}; the model's gql_ext says {m} for {e!r}",
+                              {"stage": "K2 extensions", "source": exts, "extension": e, "model": m}, found_input=False)
+    shared = src.get("shared_imports")
+    if not shared or "UNSET_IMPORT" not in shared:
+        run.broken("K2 source-derived data", "constants.py no longer defines the shared ast.ImportFrom constants the model's st_initial mirrors")
+    else:
+        st0 = model.call("C10", [Sym("stinitial")])
+        want = [["base_model", shared["UNSET_IMPORT"]["names"]], ["base_model", shared["UPLOAD_IMPORT"]["names"]]]
+        run.count()
+        if [list(x) for x in st0[:2]] != want or any(v["level"] != 1 for v in shared.values()):
+            run.violation(f"K2 source-derived data: shared import constants {shared} vs model st_initial {st0}",
+                          {"stage": "K2 shared imports", "source": shared, "model": st0}, found_input=False)
     stale = [list(k) for k in table if k not in counts]
     run.extra["table_rows_not_in_code"] = stale
     run.extra["order_sensitive_rows_present"] = [list(k) for k, v in table.items() if v[1] and k in counts]
@@ -309,7 +359,7 @@ def build_cases(ctx) -> list[Case]:
         cases.append(Case("corpus:" + f[:-5], sc, d.get("plugins") or (), "corpus"))
         cases[-1].selfimport = bool(d.get("selfimport"))
     n_corpus = len(cases)
-    n_shared, n_stress, n_fold = (30, 36, 18) if t else (8, 10, 5)
+    n_shared, n_stress, n_fold = (30, 36, 18) if t else (6, 7, 3)
     i = k = 0
     while i < n_shared and k < 4 * n_shared:
         k += 1
@@ -450,6 +500,11 @@ def k1_probe(ctx, case: Case, seed: int, res: dict, files: dict[str, bytes]):
     gens = probe.get("fragments_generate") or []
     for i, d in enumerate(probe.get("dfs") or []):
         g = gens[i] if i < len(gens) else {"defs": d["processed"], "exclude": []}
+        # hypothesis of C10_fragments_module_total on the real input: names distinct, every mixin a defined fragment
+        run.count()
+        if len(set(g["defs"])) != len(g["defs"]) or any(x not in g["defs"] for v in d["deps_iter"].values() for x in v):
+            run.violation(f"K1 wf_finput does not hold of a real input of FragmentsGenerator ({case.sid}, seed {seed})",
+                          {"stage": "K1 wf_finput", "defs": g["defs"], "deps": d["deps_iter"]}, found_input=False)
         mix = [[k, sorted(v)] for k, v in d["deps_iter"].items()]
         oc = [[k, lehmer(sorted(v), v)] for k, v in d["deps_iter"].items()]
         cmds.append([Sym("fragorder"), g["defs"], mix, g["exclude"], oc])
@@ -517,6 +572,39 @@ def k1_probe(ctx, case: Case, seed: int, res: dict, files: dict[str, bytes]):
                                "model": got, "file": fname}, found_input=False)
     for tv in probe.get("typename_raw") or []:
         run.dist("probe_typename_values", str(min(len(tv["values"]), 8)))
+
+
+def k1_generate_into(ctx, c: Case, base, results, reqmap):
+    """Model generate_into (exists-test, mkdir, writes) vs the real generator meeting the target as: absent (the
+    baseline), a directory with a placeholder, a FILE of that name, and with a missing parent directory."""
+    run = ctx.run
+    p = [[k, base[k].decode("utf-8", "surrogateescape")] for k in sorted(base)]
+    for label, st, fs in (("dir", "dir", [[".placeholder", ""]]), ("file", "file", []), ("absent", "absent", [])):
+        out = model.call("C10", [Sym("generateinto"), True, p, st, fs])
+        run.count()
+        run.dist("k1_generate_into", label)
+        if label == "absent":
+            real = ["ok", sorted(base)]
+            got = ["ok", sorted(k for k, _v in out[1])] if out[0] == "ok" else out
+        else:
+            req, res = reqmap.get((c.sid, ("tstate", label)), (None, None))
+            if res is None:
+                continue
+            if res.get("ok"):
+                files = results[(c.sid, ("tstate", label))]
+                real = ["ok", {k: v.decode("utf-8", "surrogateescape") for k, v in files.items()}]
+                got = ["ok", dict(map(tuple, out[1]))] if out[0] == "ok" and isinstance(out[1], list) else out
+            else:
+                real = ["err", (res.get("exc") or ["?"])[0].split(".")[-1]]
+                got = list(out)
+        if got != real:
+            run.violation(f"K1 generate_into: target met as {label!r}: model {str(got)[:200]} vs real {str(real)[:200]} ({c.sid})",
+                          {"stage": "K1 generate_into", "case": c.sid, "target_state": label, "model": str(got)[:2000],
+                           "real": str(real)[:2000]}, found_input=False)
+    # a missing parent is refused by the settings before the generator runs (C17's ground): recorded, not modelled
+    req, res = reqmap.get((c.sid, ("tstate", "noparent")), (None, None))
+    if res is not None:
+        run.dist("k1_generate_into", "noparent:" + ("generated" if res.get("ok") else (res.get("exc") or ["?"])[0].split(".")[-1]))
 
 
 def k1_layout(ctx, c: Case, results):
@@ -714,6 +802,8 @@ def k3(ctx, scratch):
 
         # ---- phase 1: fresh directories
         plan = {s: [] for s in seeds}
+        tstate_cases = \
+            {c.sid for c in [x for x in cases if not x.selfimport and "fwdrefs" not in x.plugins][:3]}
         stale_files = {"gen_client/zzz_stale_operation.py": "# left over from an older generation\nX = 1\n",
                        "gen_client/fragments.py": "raise RuntimeError('stale fragments module')\n",
                        "gen_client/__init__.py": "# stale init\n",
@@ -745,6 +835,16 @@ def k3(ctx, scratch):
                 r["files"] = {**r["files"], "pydantic/.keep": "", "typing_extensions/.keep": ""}
                 r["start_cwd"] = True
                 plan[0].append(((c.sid, ("shadow", 0)), r))
+            # the target as the generator may meet it: an (almost) empty directory, a FILE of that name, no parent
+            if c.sid in tstate_cases:
+                r = c.request(scratch.new(c.sid))
+                r["files"] = {**r["files"], "gen_client/.placeholder": ""}
+                plan[0].append(((c.sid, ("tstate", "dir")), r))
+                r = c.request(scratch.new(c.sid))
+                r["files"] = {**r["files"], "gen_client": "a file, not a directory\n"}
+                plan[0].append(((c.sid, ("tstate", "file")), r))
+                r = c.request(scratch.new(c.sid), target_package_path="missing/sub")
+                plan[0].append(((c.sid, ("tstate", "noparent")), r))
             # stale target directory
             r = c.request(scratch.new(c.sid))
             r["files"] = {**r["files"], **stale_files}
@@ -790,7 +890,7 @@ def k3(ctx, scratch):
         # ---- generation failures: C10 says nothing about inputs the generator refuses, but they must be
         #      refused consistently
         for c in cases:
-            oks = {v: (c.sid, v) in results for (sid, v) in list(reqmap) if sid == c.sid}
+            oks = {v: (c.sid, v) in results for (sid, v) in list(reqmap) if sid == c.sid and v[0] != "tstate"}
             if not any(oks.values()):
                 exc = reqmap[(c.sid, ("seed", 0))][1].get("exc")
                 run.dist("generation", f"refused:{(exc or ['?'])[0]}")
@@ -878,6 +978,8 @@ def k3(ctx, scratch):
                                     "started elsewhere", "started in the project directory", base, cb, scratch,
                                     env_variant=True)
             k1_layout(ctx, c, results)
+            if c.sid in tstate_cases:
+                k1_generate_into(ctx, c, base, results, reqmap)
             # stale directory: the files of the package are those of a fresh run, the others are untouched
             st = results.get((c.sid, ("stale", 0)))
             if st is not None:
